@@ -6,7 +6,7 @@ LN = ("Trusted: Coq kernel and vm_compute; the hand-written model (tied to /repo
       "Known findings listed in known_findings.json are reported as KNOWN-FINDING and excluded by signature.")
 PROPS = {
     "C19": dict(
-        imports="Blob.Bytes Blob.BytesCorr", check="C19_check", ctype="C19_case", show="brun binit (fst c)",
+        imports="Blob.Bytes Blob.BytesCorr Blob.Typed", check="C19_check", ctype="C19_case", show="brun binit (fst c)",
         n=dict(quick=1500, thorough=40000), chunk=250, wasm_streams=["C19wasm"], wasm_n=dict(quick=1200, thorough=30000),
         rule="random histories (<=12 ops) over blob.Bytes values of length 0..64 with arguments -2..len+2, "
              "aliasing views, Set from own view; distinct = distinct (ops, observations) term; every case is non-trivial (>=3 ops); "
@@ -14,9 +14,9 @@ PROPS = {
         level_text="Theorems (Coq kernel) over an executable model of blob.Bytes as Go slices with shared mutexes: every out-of-range argument is answered by an error and leaves every blob unchanged, "
                    "in-range operations agree with the byte-sequence laws (views alias, slices/Bytes() copy, Grow appends zeros, Truncate keeps a prefix), no operation panics or self-deadlocks (Set from an own view terminates). "
                    "Per run: the model is evaluated in-kernel on the same random histories the real blob.Bytes executed and every result and every blob's bytes after every step are compared.",
-        level_note="Trusted: Coq kernel + vm_compute; the hand-written model (tied by the correspondence check only); Go harness. Not modelled: spare slice capacity after append reallocation (cases cut there); the js/wasm typed-array blob is exercised against the []byte reference (node) but not modelled in Coq.",
+        level_note="Trusted: Coq kernel + vm_compute; the hand-written model (tied by the correspondence check only); Go harness. Not modelled: spare slice capacity after append reallocation (cases cut there); the Go-side byte copies of the js/wasm typed-array blob (its JS side is modelled in Blob/Typed.v and compared under node).",
         assumptions=["Go slice capacity after an append-reallocation is not modelled: histories whose result depends on it are cut at that step (RUnknown)",
-                     "typed-array blob (indexeddb/idbblob, js/wasm): differential stream under node only, not covered by this check's theorems; aliasing between a blob and its views after a Grow/Truncate is not compared there"],
+                     "typed-array blob (indexeddb/idbblob, js/wasm): the model covers the JS arrays only (read directly under node); what Bytes() answers once a Go-side copy exists is judged by the []byte reference stream, where aliasing between a blob and its views after a Grow/Truncate is not compared"],
     ),
     "C01": dict(
         imports="Base.Path KV.Types KV.FS KV.Handle KV.Run KV.Corr", check="C01_check", ctype="kv_case",
@@ -217,7 +217,7 @@ LEVELS = {
             ""),
     "C19": ("Proved: blob.Bytes operations never panic or self-deadlock; reachable blobs are well-formed; out-of-range arguments give an error and change nothing, in-range are accepted; Len/Bytes/View/Slice/Set/Grow/Truncate are the list operations; views write through. "
             "Checked every run: 1500 operation sequences over view trees model = implementation; 1200 sequences on the typed-array blob (indexeddb/idbblob) compiled for GOOS=js GOARCH=wasm and run under node against the []byte reference (in-range: lengths and bytes; out-of-range: no panic, nothing modified).",
-            "The typed-array blob is covered by the differential stream only (no theorem about it; aliasing after a resize is not compared). One known finding there (Go-side copies of aliases go stale)."),
+            "Typed-array blob: its JS side (arrays, windows, handles) is modelled in Blob/Typed.v -- proved: a view is the corresponding piece of its parent's window in every state, reachable states are well-formed, Grow/Truncate move the blob to an array of its own, in-range View is accepted and Set copies what fits -- and the JS arrays read under node after every step of the in-range histories are compared with that model.  Its Go-side copies of the bytes (what Bytes() answers from) are not modelled; one known finding there (copies of aliases go stale)."),
     "C20": ("Proved over the model of fstest's tree comparison: with the default mask mode bits are invisible and extra entries are accepted (the known findings as theorems); a kept mode bit is checked; missing entries, wrong sizes and wrong kinds are rejected; the expected tree is accepted. "
             "Checked every run: the real suite in a child process against mem, os and a catalogue of single-deviation wrappers (all 79 single-behaviour ones, a sample of the sentinel-pair matrix in the quick tier); assertion layer model = implementation.",
             "Partial: three classes of deviants are accepted by the suite (known findings)."),
